@@ -206,4 +206,61 @@ CATALOGUE = [
     B('rename-locals-next', ['C17'], [(TR, "        let mut successor: Option<(&K, &V)> = None;\n\n        loop {\n            match (self.comparator)(key, &node.key) {\n                Ordering::Less => {\n                    successor = Some((&node.key, &node.value));", "        let mut best: Option<(&K, &V)> = None;\n\n        loop {\n            match (self.comparator)(key, &node.key) {\n                Ordering::Less => {\n                    best = Some((&node.key, &node.value));"), (TR, "                Ordering::Equal | Ordering::Greater => match node.right {\n                    Some(ref right) => node = right,\n                    None => break,\n                },\n            }\n        }\n\n        successor", "                Ordering::Equal | Ordering::Greater => match node.right {\n                    Some(ref right) => node = right,\n                    None => break,\n                },\n            }\n        }\n\n        best")]),
     M('interiors-helper-wrong-box', ['C09', 'C13'], [(FQ, "    for polygon in clipping {\n        let exterior = operation != Operation::Difference;\n        if exterior {\n            contour_id += 1;\n        }\n        process_polygon(polygon.exterior(), false, contour_id, &mut event_queue, cbbox, exterior);\n        for interior in polygon.interiors() {\n            process_polygon(interior, false, contour_id, &mut event_queue, cbbox, false);\n        }\n    }\n\n    event_queue\n}", "    for polygon in clipping {\n        let exterior = operation != Operation::Difference;\n        if exterior {\n            contour_id += 1;\n        }\n        process_polygon(polygon.exterior(), false, contour_id, &mut event_queue, cbbox, exterior);\n        process_interiors(polygon, false, contour_id, &mut event_queue, sbbox);\n    }\n    event_queue\n}\n\nfn process_interiors<F: Float>(\n    polygon: &Polygon<F>,\n    is_subject: bool,\n    contour_id: u32,\n    event_queue: &mut BinaryHeap<Rc<SweepEvent<F>>>,\n    bbox: &mut BoundingBox<F>,\n) {\n    for interior in polygon.interiors() {\n        process_polygon(interior, is_subject, contour_id, event_queue, bbox, false);\n    }\n}")], {'C09': 'B-acc'}),
     B('interiors-helper-correct', ['C09', 'C13', 'C07', 'C05'], [(FQ, "    for polygon in clipping {\n        let exterior = operation != Operation::Difference;\n        if exterior {\n            contour_id += 1;\n        }\n        process_polygon(polygon.exterior(), false, contour_id, &mut event_queue, cbbox, exterior);\n        for interior in polygon.interiors() {\n            process_polygon(interior, false, contour_id, &mut event_queue, cbbox, false);\n        }\n    }\n\n    event_queue\n}", "    for polygon in clipping {\n        let exterior = operation != Operation::Difference;\n        if exterior {\n            contour_id += 1;\n        }\n        process_polygon(polygon.exterior(), false, contour_id, &mut event_queue, cbbox, exterior);\n        process_interiors(polygon, false, contour_id, &mut event_queue, cbbox);\n    }\n    event_queue\n}\n\nfn process_interiors<F: Float>(\n    polygon: &Polygon<F>,\n    is_subject: bool,\n    contour_id: u32,\n    event_queue: &mut BinaryHeap<Rc<SweepEvent<F>>>,\n    bbox: &mut BoundingBox<F>,\n) {\n    for interior in polygon.interiors() {\n        process_polygon(interior, is_subject, contour_id, event_queue, bbox, false);\n    }\n}")]),
+    # ---- "extract helper" refactors: the explorer expands helpers that no rule knows by name
+    B('extract-propagate-helper', ['C14', 'C01', 'C04'], [(CF, """        if event.is_subject == prev.is_subject {
+            if prev.is_vertical() {
+                // The region right of a vertical edge is its "below" side: nothing is crossed yet.
+                event.set_in_out(prev.is_in_out(), prev.is_other_in_out());
+            } else {
+                event.set_in_out(!prev.is_in_out(), prev.is_other_in_out());
+            }
+        } else if prev.is_vertical() {
+            event.set_in_out(!prev.is_other_in_out(), !prev.is_in_out());
+        } else {
+            event.set_in_out(!prev.is_other_in_out(), prev.is_in_out());
+        }""", "        propagate_flags(event, prev);"), (CF, "fn in_result<F>(event: &SweepEvent<F>, operation: Operation) -> bool", """fn propagate_flags<F: Float>(event: &SweepEvent<F>, prev: &SweepEvent<F>) {
+    let own = if prev.is_vertical() { prev.is_in_out() } else { !prev.is_in_out() };
+    if event.is_subject == prev.is_subject {
+        event.set_in_out(own, prev.is_other_in_out());
+    } else {
+        event.set_in_out(!prev.is_other_in_out(), !own);
+    }
+}
+
+fn in_result<F>(event: &SweepEvent<F>, operation: Operation) -> bool""")]),
+    B('extract-normal-selection-helper', ['C01', 'C14', 'C05', 'C06'], [(CF, """        EdgeType::Normal => match operation {
+            Operation::Intersection => !event.is_other_in_out(),
+            Operation::Union => event.is_other_in_out(),
+            Operation::Difference => {
+                (event.is_subject && event.is_other_in_out()) || (!event.is_subject && !event.is_other_in_out())
+            }
+            Operation::Xor => true,
+        },""", "        EdgeType::Normal => normal_edge_selected(event.is_subject, event.is_other_in_out(), operation),"), (CF, "fn determine_result_transition<F>(event: &SweepEvent<F>, operation: Operation) -> ResultTransition", """fn normal_edge_selected(is_subject: bool, other_out: bool, operation: Operation) -> bool {
+    match operation {
+        Operation::Intersection => !other_out,
+        Operation::Union => other_out,
+        Operation::Difference => is_subject == other_out,
+        Operation::Xor => true,
+    }
+}
+
+fn determine_result_transition<F>(event: &SweepEvent<F>, operation: Operation) -> ResultTransition""")]),
+    B('extract-touches-helper', ['C16', 'C13', 'C04'], [(PI, """            if se1.point != inter && other1.point != inter {
+                divide_segment(se1, inter, queue);
+            }
+            if se2.point != inter && other2.point != inter {
+                divide_segment(se2, inter, queue);
+            }""", """            if !ends_at(se1, &other1, inter) {
+                divide_segment(se1, inter, queue);
+            }
+            if !ends_at(se2, &other2, inter) {
+                divide_segment(se2, inter, queue);
+            }"""), (PI, "pub fn possible_intersection<F>(", """fn ends_at<F: Float>(left: &Rc<SweepEvent<F>>, right: &Rc<SweepEvent<F>>, p: geo_types::Coord<F>) -> bool {
+    if left.point == p {
+        return true;
+    }
+    right.point == p
+}
+
+pub fn possible_intersection<F>(""")]),
 ]
